@@ -4,6 +4,7 @@ use crate::case::{catch, stat_add, CaseOut, Ctx};
 use crate::fio::{FaultyRead, ReadPlan};
 use crate::gen::{self, Family};
 use crate::ours::{decode_from, encode, Container, Spec};
+#[allow(unused_imports)]
 use crate::util::{first_diff, Rng};
 
 pub const STEER: u64 = 8;
